@@ -62,6 +62,14 @@ ABS = [
     ("import vpkg.leaf as vpkg\nimport vpkg.other\nfrom vpkg import leaf as vpkg", ["vpkg"], "alias-then-plain-then-from"),
     ("from vtop import T\nT = T + '!'\nfrom vtop import T as T2, T", ["T", "T2"], "from-rebound"),
     ("from vpkg import other, leaf, other as o2, X, X as X2", ["other", "leaf", "o2", "X", "X2"], "from-duplicates-in-order"),
+    # the same import twice in one scope: the first one did not run, or the name was rebound in between
+    ("if P(1, 0):\n    import vpkg.leaf as lf\nimport vpkg.leaf as lf", ["lf"], "untaken-then-again"),
+    ("if P(1, 0):\n    import vtop\nimport vtop", ["vtop"], "untaken-then-again-plain"),
+    ("for zq in P(1, []):\n    from vpkg import leaf, X\nfrom vpkg import leaf, X", ["leaf", "X"], "zero-loop-then-again-from"),
+    ("import vtop as vt\nvt = None\nimport vtop as vt", ["vt"], "alias-rebound-between"),
+    ("import vtop\nvtop = 5\nimport vtop", ["vtop"], "plain-rebound-between"),
+    ("from vpkg import leaf\nleaf = 'gone'\nfrom vpkg import leaf", ["leaf"], "from-rebound-between-same"),
+    ("import vpkg.other\nimport vpkg.other\nimport vpkg.other as oth\nimport vpkg.other as oth", ["vpkg", "oth"], "same-statement-repeated"),
     # a future statement is an import too: it binds the feature object (only legal at the top of a module)
     ("from __future__ import annotations", ["annotations"], "future"),
     ("from __future__ import annotations as ann, division", ["ann", "division"], "future-alias-multi"),
